@@ -598,6 +598,35 @@ func runNativeNames(pkgName, rel string, names []string, paths []string, ovFiles
 			res[f[1]] = nr
 		}
 	}
+	if len(res) < len(paths) && len(paths) > 1 && (strings.Contains(string(out), "\npanic: ") || strings.Contains(string(out), "fatal error: ")) {
+		// a panic outside the replaying goroutine (a background goroutine of the code under test) kills the whole test
+		// process, and with it the vectors that had not run yet: run the missing ones one process each
+		for _, p := range paths {
+			if _, ok := res[p]; ok {
+				continue
+			}
+			one, _ := runNativeNames(pkgName, rel, names, []string{p}, ovFiles, work, repeat)
+			for k, v := range one {
+				res[k] = v
+			}
+		}
+	}
+	if len(res) < len(paths) && len(paths) == 1 {
+		if i := strings.Index(string(out), "\npanic: "); i >= 0 {
+			line := string(out)[i+1:]
+			if j := strings.Index(line, "\n"); j >= 0 {
+				line = line[:j]
+			}
+			// the native process died of an unrecovered panic in a goroutine the harness did not start itself
+			res[paths[0]] = nativeResult{status: "panic", detail: "process crashed: " + line}
+		} else if i := strings.Index(string(out), "fatal error: "); i >= 0 {
+			line := string(out)[i:]
+			if j := strings.Index(line, "\n"); j >= 0 {
+				line = line[:j]
+			}
+			res[paths[0]] = nativeResult{status: "panic", detail: "process crashed: " + line}
+		}
+	}
 	if len(res) < len(paths) {
 		tail := string(out)
 		if len(tail) > 3000 {
